@@ -1,5 +1,6 @@
 import TlsProofs.ErrPath
 import TlsProofs.Flights
+import TlsModel.Gen.ErrPath
 /-
   C08 — malformed peer input fails cleanly, promptly and within bounded memory (the part that is
   logic; see DESIGN.md section 5/C08 and section 8 for what is explored by the harness instead).
@@ -693,3 +694,86 @@ example : hrrChecks ⟨some [30], none, [23, 29], 0, .present (some [29]), 0, fa
 end Flights
 
 end Tls
+
+/-! ### the tie to the source: obligations over what translate/gen_errpath.py reads off the Python AST
+
+    TlsModel/Gen/ErrPath.lean is regenerated from the tree under check on every run; the statements below are
+    decided by the kernel on that data.  Reverting one of the presence checks (e.g. `if not supported:` before
+    `supported.groups`, `sni_ext.hostNames` before `hostNames[0]`), removing a handler of `_getMsg`, changing
+    the alert of one, or parsing a new message type outside the `try` makes them false. -/
+namespace ErrSites
+open Tls.ErrSites Tls.ErrPath Tls.Gen.ErrPath
+
+/-- Every `<Message>(...).parse(p)` of `_getMsg` is the one expected for its content / handshake type, and every
+    exception class that a `parse*` method (messages.py, extensions.py) or `codec.Parser` raises - other than the
+    listed local invariants - is caught at every site by a handler that sends a fatal decode_error /
+    illegal_parameter / bad_certificate alert (a malformed heartbeat is discarded, RFC 6520). -/
+theorem gen_every_parse_site_guarded :
+    translatorProblems = [] ∧
+    parseSites.map (fun s => (s.selector, s.cls)) = expectedSites ∧
+    (∀ s ∈ parseSites, s.arg = "p") ∧
+    (∀ r ∈ parserRaises, raiseGuarded (builtinBases ++ excBases) parseSites r = true) ∧
+    (∀ s ∈ parseSites, ∀ c ∈ ["SyntaxError", "DecodeError", "BadCertificateError", "TLSIllegalParameterException"],
+        siteGuarded (builtinBases ++ excBases) s c = true) := by
+  refine ⟨rfl, rfl, by decide, by decide, by decide⟩
+
+example : parseSites.length = 21 := rfl
+example : parserRaises.length ≥ 10 := by decide +kernel
+-- a parse call outside the `try` would not be guarded
+example : siteGuarded (builtinBases ++ excBases) ⟨"KeyUpdate", "", "p", []⟩ "DecodeError" = false := by decide
+-- without the SyntaxError handler DecodeError (a SyntaxError) escapes
+example : siteGuarded (builtinBases ++ excBases)
+    ⟨"KeyUpdate", "", "p", [[(["TLSIllegalParameterException"], .sendError "illegal_parameter")]]⟩ "DecodeError" = false := by decide
+
+/-- The `except` clauses of tlsrecordlayer.py and tlsconnection.py are exactly the reviewed table; the handlers
+    of `_getNextRecordFromSocket` and `_getMsg` answer each class with the alert `ErrPath.codeDesc` gives the
+    corresponding error kind, and cover every kind of that family; the alert numbers of constants.py are those of
+    the model; `_sendError` and `_shutdown` have the statement sequence that `ErrPath.sendError` / `shutdown`
+    model; the outermost handlers of `readAsync` and `_handshakeWrapperAsync` are `_shutdown(False); raise`
+    (`wrapRead`, `wrapHandshake`). -/
+theorem gen_exception_alert_table_matches_model :
+    handlers = modelHandlers ∧
+    shapes = expectedShapes ∧
+    (∀ r ∈ modelAlertNumbers, alertNumber alertNumbers r.1 = some r.2) ∧
+    (∀ h ∈ handlers, (h.fn = "_getNextRecordFromSocket" ∨ (h.fn = "_getMsg" ∧ h.action ≠ .swallow)) →
+        handlerMatchesModel alertNumbers h = true) ∧
+    (∀ r ∈ classKind, ∃ h ∈ handlers, h.fn = r.1 ∧ h.classes = [r.2.1] ∧ handlerMatchesModel alertNumbers h = true) ∧
+    (⟨"tlsrecordlayer.py", "readAsync", ["*"], .shutdownRaise "False"⟩ ∈ handlers) ∧
+    (⟨"tlsconnection.py", "_handshakeWrapperAsync", ["*"], .shutdownRaise "False"⟩ ∈ handlers) := by
+  refine ⟨rfl, rfl, by decide, by decide, by decide, by decide, by decide⟩
+
+example : handlers.length ≥ 60 := by decide +kernel
+example : (handlers.filter (fun h => match h.action with | .sendError _ => true | _ => false)).length ≥ 40 := by decide +kernel
+-- a handler with another alert does not match the model
+example : handlerMatchesModel alertNumbers
+    ⟨"tlsrecordlayer.py", "_getMsg", ["SyntaxError"], .sendError "illegal_parameter"⟩ = false := by decide
+
+/-- Every `v.attr` / `v.attr[k]` on a `getExtension` result in tlsconnection.py, tlsrecordlayer.py, keyexchange.py
+    and handshakehelpers.py is reached only under path conditions that force the extension to be present (the
+    list to be non-empty) - decided by enumerating the valuations of the atoms of its path -, or reads a message
+    the endpoint built itself, or is covered by a listed fact whose establishing `if ...: _sendError` still exists
+    in the named function. -/
+theorem gen_extension_uses_dominated_by_presence_check :
+    translatorProblems = [] ∧ extTruthOverrides = [] ∧
+    (∀ u ∈ extUses, u.ok exitChecks = true) := by
+  refine ⟨rfl, rfl, by decide +kernel⟩
+
+example : extUses.length ≥ 140 := by decide +kernel
+example : (extUses.filter (fun u => u.direct)).length ≥ 130 := by decide +kernel
+-- `supported.groups` without the `if not supported:` check in front of it (the shape before 7443330)
+example : ExtUse.ok exitChecks
+    { file := "tlsconnection.py", fn := "_serverGetClientHello", var := "supported", attr := "groups", kind := "attr",
+      line := 0, atoms := [⟨"ext", "clientHello", "supported_groups", ""⟩, ⟨"ext", "clientHello", "key_share", ""⟩],
+      path := [.atom 1] } = false := by decide
+-- `sni_ext.hostNames[0]` under `if sni_ext:` only (the shape before 4df6873)
+example : ExtUse.ok exitChecks
+    { file := "tlsconnection.py", fn := "_serverGetClientHello", var := "sni_ext", attr := "hostNames[0]", kind := "index",
+      line := 0, atoms := [⟨"nonempty", "clientHello", "server_name", "hostNames"⟩, ⟨"ext", "clientHello", "server_name", ""⟩],
+      path := [.atom 1] } = false := by decide
+
+/-- `CompressedCertificate._decompress` / `.parse` contain exactly the bounding calls and checks that
+    `ErrPath.decompress` models (zlib output limited to the declared length + 1, any decompressor failure becomes
+    BadCertificateError, exact length match required). -/
+theorem gen_decompress_sites_match_model : decompressSites = expectedDecompress := rfl
+
+end ErrSites
